@@ -28,12 +28,17 @@ theorem ObsMonitor.prod_run {ο μ ν : Type} (a : ObsMonitor ο μ) (b : ObsMon
   induction h generalizing m with
   | nil => simp [ObsMonitor.run]
   | cons o os ih =>
-    simp only [ObsMonitor.run, ObsMonitor.prod]
-    cases ha : a.step m.1 o <;> cases hb : b.step m.2 o <;> simp
-    · cases (b.run _ os) <;> simp
-    · rename_i x y
-      have := ih (x, y)
-      simpa [ObsMonitor.prod] using this
+    simp only [ObsMonitor.run]
+    have hp : (a.prod b).step m o = match a.step m.1 o, b.step m.2 o with
+      | some x, some y => some (x, y)
+      | _, _ => none := rfl
+    rw [hp]
+    cases ha : a.step m.1 o with
+    | none => simp
+    | some x =>
+      cases hb : b.step m.2 o with
+      | none => simp
+      | some y => simpa using ih (x, y)
 
 /-- the conjunction accepts a history iff both monitors do -/
 theorem ObsMonitor.prod_accepts {ο μ ν : Type} (a : ObsMonitor ο μ) (b : ObsMonitor ο ν) (h : List ο) :
@@ -112,7 +117,6 @@ structure EvSt where
   relInv : List Nat := []
   ctxCalls : List Nat := []
   ctx : Option Nat := none        -- the container context when it is known (no overlapping SetContext)
-  overlap : Bool := false
 deriving Repr
 
 /-- **C08 clause 3 (no leak).** At a quiescence point every release function that was returned and
@@ -128,9 +132,8 @@ def monEventually : ObsMonitor Obs EvSt where
     | .cbinRel k _ => some { m with unrel := m.unrel.filter (·.1 != k) }
     | .retAddRef a => some { m with added := a :: m.added }
     | .invRelease _ r => some { m with relInv := r :: m.relInv }
-    | .invSetCtx a _ _ =>
-      some { m with ctxCalls := a :: m.ctxCalls, overlap := m.overlap || !m.ctxCalls.isEmpty
-                    ctx := none }
+    | .invSetCtx a c _ =>
+      some { m with ctxCalls := a :: m.ctxCalls, ctx := if m.ctxCalls.isEmpty then some c else none }
     | .retSetCtx a _ => some { m with ctxCalls := m.ctxCalls.erase a }
     | .quiesce _ =>
       let held := m.added.filter (fun r => !m.relInv.contains r)
@@ -138,21 +141,7 @@ def monEventually : ObsMonitor Obs EvSt where
             m.ctx != some 0) then some m else none
     | _ => some m
 
-/-- track the argument of the last `SetContext` when calls do not overlap -/
-def EvSt.noteCtx (m : EvSt) (o : Obs) : EvSt :=
-  match o with
-  | .invSetCtx _ c _ => if m.ctxCalls.isEmpty then { m with ctx := some c } else { m with ctx := none }
-  | _ => m
-
-/-- `monEventually` with the context tracking applied after each step -/
-def monEventually' : ObsMonitor Obs EvSt where
-  init := {}
-  step := fun m o => (monEventually.step m o).map fun m' =>
-    match o with
-    | .invSetCtx _ c _ => if m.ctxCalls.isEmpty then { m' with ctx := some c } else m'
-    | _ => m'
-
-abbrev monC08 := (monOnce.prod monHidden).prod (monHeld.prod monEventually')
+abbrev monC08 := (monOnce.prod monHidden).prod (monHeld.prod monEventually)
 
 /-! ## C09 -/
 
